@@ -428,3 +428,112 @@ func TestConcurrentKeys(t *testing.T) {
 func mustRE(s string) *regexp.Regexp { return regexp.MustCompile(s) }
 
 type zKeyUsage = x509.KeyUsage
+
+// TestConcurrentScope (C04): certificates that differ in what puts them in or out of scope of the three CA/B Forum
+// documents - key purposes, policy identifiers, a mailbox in the SAN - are linted by eight goroutines at once, quick
+// ones next to ones whose lists are thousands of entries long (a scope walk over those takes long enough for another
+// goroutine to pass through the same helper many times). Every verdict equals the one given alone.
+func TestConcurrentScope(t *testing.T) {
+	prop := os.Getenv("VERIF_PROPERTY")
+	if prop == "" {
+		prop = "C04"
+	}
+	rec := stats.New(prop)
+	t.Cleanup(rec.Flush)
+	co := gen.LoadCorpus()
+	shard, _ := stats.Shard()
+	g := lint.GlobalRegistry()
+	var bases [][]byte
+	for i := shard * 17; i < len(co.Certs)+shard*17 && len(bases) < 2; i++ {
+		o := co.Certs[i%len(co.Certs)]
+		if c, ok := gen.ParseCert(o.DER); ok && !c.SelfSigned && !c.IsCA && len(c.DNSNames) > 0 {
+			bases = append(bases, o.DER)
+		}
+	}
+	if len(bases) == 0 {
+		t.Skip("no subscriber base")
+	}
+	tls := []int{2, 23, 140, 1, 2, 1}
+	smime := []int{2, 23, 140, 1, 5, 1, 1}
+	cs := []int{2, 23, 140, 1, 4, 1}
+	other := []int{1, 3, 6, 1, 4, 1, 99999, 1}
+	type scope struct {
+		ekus     [][]int
+		policies [][]int
+		mail     bool
+	}
+	scopes := []scope{
+		{ekus: [][]int{gen.EKUServerAuth}}, {ekus: [][]int{gen.EKUClientAuth}}, {ekus: [][]int{gen.EKUEmail}, mail: true}, {ekus: [][]int{gen.EKUClientAuth}, policies: [][]int{cs}},
+		{ekus: [][]int{gen.EKUClientAuth}, policies: [][]int{tls}}, {ekus: [][]int{gen.EKUClientAuth}, policies: [][]int{smime}}, {ekus: [][]int{gen.EKUCodeSign}, policies: [][]int{other}}, {},
+	}
+	var ders [][]byte
+	for _, b := range bases {
+		for _, sc := range scopes {
+			for bloat := 0; bloat < 2; bloat++ {
+				v, err := gen.ViewCert(b)
+				if err != nil {
+					continue
+				}
+				v.SetEKU(sc.ekus...)
+				pol := append([][]int{}, sc.policies...)
+				if bloat == 1 {
+					// the deciding identifier comes last, behind thousands of others
+					var filler [][]int
+					for i := 0; i < stats.Scale(600, 4000); i++ {
+						filler = append(filler, []int{1, 3, 6, 1, 4, 1, 99999, 9, i})
+					}
+					pol = append(filler, pol...)
+				}
+				v.SetPolicies(pol...)
+				if sc.mail {
+					v.SetSAN(false, gen.GNEmail([]byte("user@example.com")), gen.GNDNS([]byte("example.com")))
+				}
+				der := v.DER()
+				if _, ok := gen.ParseCert(der); ok {
+					ders = append(ders, der)
+				}
+			}
+		}
+	}
+	alone := make([]string, len(ders))
+	for i, der := range ders {
+		c, _ := gen.ParseCert(der)
+		alone[i] = engine.Digest(zlint.LintCertificateEx(c, g))
+	}
+	const W = 8
+	runtime.GOMAXPROCS(W)
+	iters := stats.Scale(24, 300)
+	errs := make(chan string, W)
+	var wg sync.WaitGroup
+	start := make(chan struct{})
+	for w := 0; w < W; w++ {
+		wg.Add(1)
+		go func(w int) {
+			defer wg.Done()
+			<-start
+			for it := 0; it < iters; it++ {
+				// even workers stay with the quick certificates, odd ones with the long ones
+				i := (2*((w*13+it*5)%(len(ders)/2)) + w%2) % len(ders)
+				c, ok := gen.ParseCert(ders[i])
+				if !ok {
+					continue
+				}
+				if d := engine.Digest(zlint.LintCertificateEx(c, g)); d != alone[i] {
+					errs <- fmt.Sprintf("certificate %d: verdicts %s while other goroutines lint certificates of other scope, %s alone", i, d, alone[i])
+					return
+				}
+			}
+		}(w)
+	}
+	close(start)
+	wg.Wait()
+	close(errs)
+	for e := range errs {
+		if rec.Report("c10", "scope-differs-from-sequential", e, program{}) {
+			t.Fatalf("%s", e)
+		}
+	}
+	rec.EvalN(int64(W * iters))
+	rec.Class("concurrent_scope_verdicts")
+	rec.NT(stats.HashS("concurrent-scope", fmt.Sprint(shard)))
+}
